@@ -197,13 +197,14 @@ def with_del_new(rng, spec, p_del=0.5, p_new=0.5):
     ops_ = [dict(o) for o in spec["ops"]]
     n = spec["n"]
     if rng.random() < p_del and n >= 2:
-        d = rng.randrange(n)
+        # one Del command naming one mode, or several modes in arbitrary (also ascending) order
+        ds = rng.sample(range(n), 2 if (n >= 3 and rng.random() < 0.4) else 1)
         last = -1
         for i, o in enumerate(ops_):
-            if d in op_wires(o):
+            if set(ds) & set(op_wires(o)):
                 last = i
         t = rng.randint(last + 1, len(ops_))
-        ops_.insert(t, dict(cls="Del", regs=[d], pars=[]))
+        ops_.insert(t, dict(cls="Del", regs=ds, pars=[]))
         if rng.random() < p_new:
             t2 = rng.randint(t + 1, len(ops_))
             k = rng.randint(1, 2)
